@@ -209,7 +209,7 @@ theorem C18_whole_run (follow : Follow) (t : Prim) (ht : isTestP t = true)
       ((∃ x ∈ roots, x.2 = none) → res.ret ≠ 0) := by
   have hb := buildTop_single_test t ht
   refine ⟨doFind { follow := follow } (.and [.prim t, .prim (.pathOut [] [10])]) roots g0 0 0, ?_, ?_⟩
-  · simp only [run, List.foldl, applyArg, List.map, Arg.tok', hb]
+  · simp only [run, List.foldl, applyArg, List.map, Arg.tok', hb, Bool.false_eq_true, if_false]
   · have h := doFind_out { follow := follow } t (.pathOut [] [10]) ht rfl roots
       (fun _ _ _ _ hd => by simp [refCfg] at hd) g0 0 0
     exact ⟨h.1, fun hx => h.2 (Or.inr hx)⟩
